@@ -303,7 +303,12 @@ impl ChainStorage for ZarrChainStorage {
                     .copied()
                     .unwrap_or(0);
                 let s = sample_counts.get(dim.as_str()).copied().unwrap_or(0);
-                (dim.clone(), (w, s))
+                if self.last_sample_was_warmup {
+                    // No sampling draw was ever recorded: the buffers still hold warmup events.
+                    (dim.clone(), (s, 0))
+                } else {
+                    (dim.clone(), (w, s))
+                }
             })
             .collect();
         Ok(counts)
@@ -318,7 +323,11 @@ impl ChainStorage for ZarrChainStorage {
                     .get(dim.as_str())
                     .copied()
                     .unwrap_or(0);
-                (dim, (w, s))
+                if self.last_sample_was_warmup {
+                    (dim, (s, 0))
+                } else {
+                    (dim, (w, s))
+                }
             })
             .collect();
         Ok(Some(counts))
